@@ -25,6 +25,7 @@ import Hdl21Model.Lemmas.Export
 import Hdl21Model.Lemmas.PortRefs
 import Hdl21Model.Props.C03
 import Hdl21Model.Lemmas.Rename
+import Hdl21Model.Lemmas.Nets
 namespace Hdl21.Props.C01
 open Hdl21 Hdl21.Pkg
 
@@ -227,5 +228,31 @@ theorem references_inside_compounds_refused (ρ : String → String) (c : SConn)
 example :
     ((SConn.concat [.slice (.sig "&q" 3) (.range (some 1) (some 3) none), .slice (.sig "s" 2) (.int 0)]).rename
       (fun n => if n = "&q" then "i_q" else n)).denote.toOption = some [("i_q", 1), ("i_q", 2), ("s", 0)] := by decide
+
+/-! ## the oracle: the net solver's union-find
+
+Both readings of a design — `Sem.src` of what was written, `Sem.pkg` of the exported package — are computed by the same naive
+solver (Nets.lean), whose only non-trivial step is merging classes of atoms. -/
+section Oracle
+open Hdl21.Nets
+
+/-- `join cs a b` is union: over pairwise disjoint classes, two atoms are together afterwards iff they were together before
+    (`a` and `b` each being given a class of their own if they had none), or one was with `a` and the other with `b`. -/
+theorem solver_join_is_union (cs : List (List Atom)) (a b : Atom) (hd : Disj cs) :
+    Disj (join cs a b) ∧
+    ∀ x y, Same (join cs a b) x y ↔
+      (Same (touch (touch cs a) b) x y ∨ (Same (touch (touch cs a) b) x a ∧ Same (touch (touch cs a) b) b y) ∨
+       (Same (touch (touch cs a) b) x b ∧ Same (touch (touch cs a) b) a y)) :=
+  join_spec cs a b hd
+
+/-- `joinAll cs l` (all port bits of one child net glued onto the parent's atoms): everything of `l` ends in one class, what was
+    together stays together, and nothing is identified beyond the equivalence generated by the old classes and the list. -/
+theorem solver_joinAll_sound_and_complete (l : List Atom) (cs : List (List Atom)) (hd : Disj cs) :
+    Disj (joinAll cs l) ∧ (∀ x y, Same cs x y → Same (joinAll cs l) x y) ∧
+    (∀ x ∈ l, ∀ y ∈ l, Same (joinAll cs l) x y) ∧ (∀ x y, Same (joinAll cs l) x y → Gen cs l x y) :=
+  joinAll_spec l cs hd
+
+example : (joinAll [[⟨"s:a", [], 0⟩], [⟨"s:b", [], 0⟩, ⟨"s:c", [], 0⟩]] [⟨"s:a", [], 0⟩, ⟨"s:c", [], 0⟩]).length = 1 := by decide
+end Oracle
 
 end Hdl21.Props.C01
